@@ -200,7 +200,8 @@ pub fn execute(seed: u64, sc: &Scenario, stats: &mut Stats) -> Result<(), Violat
     // A stream with patches can deadlock on a real pool (known finding F23); every such hang leaks
     // the blocked caller thread and its pool. After two hangs in this worker process the real-pool
     // legs are skipped for streams with patches: the finding is on record, more leaks add nothing.
-    let has_patches = sc.case.tag(String::new()).contains("+patches");
+    let tags = sc.case.tag(String::new());
+    let has_patches = tags.contains("+patches") || tags.contains("+lff");
     let skip_real_pools = has_patches && crate::harness::HANGS.load(std::sync::atomic::Ordering::Relaxed) >= 2;
     if skip_real_pools {
         stats.probe("real_pool_legs_skipped_after_patch_deadlocks");
